@@ -418,6 +418,11 @@ func RollCoC(src *rand.PCGSource, isBonus bool, diceNum IntType, mode int) (IntT
 	for i := IntType(0); i < diceNum; i++ {
 		n := Roll(src, 10, mode)
 		verifRoll(src, 10, mode, n, "coc.tens")
+		if mode == -1 {
+			// 十位骰的"10"面代表数字0，是十位能取到的最小值；最小值模式要给出下界，
+			// 若按面值1结算，惩罚骰的下界会变成11，而真实掷骰可以得到1
+			n = 10
+		}
 
 		if n == 10 {
 			num10Exists = true
